@@ -169,6 +169,9 @@ func weaveSnapshotsEx(r *Rng, ops []Op, k int, allowRevert bool) []Op {
 				o = Op{K: "flush"}
 			case 11:
 				o = Op{K: "exist", Name: nm, Key: key}
+				if r.Chance(1, 2) {
+					o = Op{K: "cwrite", Name: nm} // Collection.Write() on a snapshot must be refused and write nothing
+				}
 			}
 			o.H = s
 			inserts = append(inserts, ins{p, o})
